@@ -203,6 +203,45 @@ def arg_flows(f):
     return out
 
 
+def arg_flows_fields(f):
+    """like arg_flows, but a parameter of a struct type whose fields are read directly (`p.x`, `p.is_id`, `x.limbs`) contributes one source PER FIELD
+    ('#2.x'): {(parameter.field, callee): sites}.  Re-routing a check from one coordinate to its sibling keeps every call and every parameter in place."""
+    src = assigned_params(f)
+    if not src:
+        return {}
+    ids = {i: tok for tok, i, t in src}
+    read = set()
+    for n in walk(f['body']):
+        if n.get('k') == 'field' and not str(n.get('n', '')).isdigit():
+            b = peel(n['e'])
+            if b.get('k') == 'local' and b.get('i') in ids:
+                read.add(b['i'])
+    if not read:
+        return {}
+    vf = valflow.ValFlow(f, sources=[], field_sources={i: ids[i] for i in read})
+    out = {}
+    for n, c, deps in vf.call_sites(typed=dlint.has_assigned):
+        if not c.startswith(('midnight_', '<midnight_')) or not valflow.circuit_call(n):
+            continue
+        for p in deps:
+            if '.' in p:
+                out[(p, c)] = out.get((p, c), 0) + 1
+    return out
+
+
+def mine_argflow_fields(w):
+    rows = []
+    for f in w.all_fns(CRATES):
+        if '::tests::' in f['_nid'] or '/tests' in f['file']:
+            continue
+        prop = prop_of_file(f['file'])
+        if prop is None:
+            continue
+        for (p, c), k in sorted(arg_flows_fields(f).items()):
+            rows.append(dict(property=prop, fn=f['_xid'], param=p, reaches=c, sites=k))
+    return rows
+
+
 def mine_argflow(w):
     rows = []
     for f in w.all_fns(CRATES):
@@ -411,6 +450,54 @@ def mine_selectors(w):
     return rows
 
 
+GATE_CALLS = ('create_gate', 'lookup', 'lookup_any', 'shuffle')
+
+
+def gate_profiles(f):
+    """[(label, {operation: number of sites})] for every gate / lookup declared by f: operations of the closure handed to ConstraintSystem::create_gate /
+    lookup / lookup_any (resolved callees, overloaded operators on expressions, query calls, Rotation constructors with their literal, and the NUMBER OF
+    ELEMENTS of the array / vec literals, i.e. of the constraint list)"""
+    from collections import Counter
+    from ..core import expr_str
+    from .c10 import nesting_profile
+    out = []
+    k = 0
+    for c in hirq.calls(f['body']):
+        cc = callee(c) or ''
+        if not (cc.startswith('midnight_proofs::plonk::circuit::ConstraintSystem::') and cc.rsplit('::', 1)[1] in GATE_CALLS):
+            continue
+        args = c.get('args', [])
+        clos = [peel(a) for a in args if peel(a).get('k') == 'closure']
+        if not clos:
+            continue
+        name = next((peel(a).get('v') for a in args if peel(a).get('k') == 'lit' and str(peel(a).get('v', '')).startswith('s:')), None)
+        prof = Counter()
+        for op, depths in nesting_profile({'body': clos[0]['body']}).items():
+            prof[op] += len(depths)
+        for x in walk(clos[0]['body']):
+            if x.get('k') == 'array':
+                prof['constraint-list elements'] += len(x.get('es', []))
+            if x.get('k') == 'call' and (callee(x) or '').endswith('poly::Rotation') and x.get('args'):
+                a0 = peel(x['args'][0])
+                prof[f'Rotation({a0.get("v") if a0.get("k") == "lit" else expr_str(a0)[:20]})'] += 1
+        out.append((f'{cc.rsplit("::", 1)[1]}#{k}', name, dict(prof)))
+        k += 1
+    return out
+
+
+def mine_gates(w):
+    rows = []
+    for f in w.all_fns(CRATES):
+        if '::tests::' in f['_nid'] or '/tests' in f['file']:
+            continue
+        prop = prop_of_file(f['file'])
+        if prop is None:
+            continue
+        for label, name, prof in gate_profiles(f):
+            rows.append(dict(property=prop, fn=f['_xid'], gate=label, name=name, ops=dict(sorted(prof.items()))))
+    return rows
+
+
 def load_rules(name):
     p = os.path.join(facts.VERIF, 'rules', name)
     with open(p) as fh:
@@ -607,6 +694,24 @@ def run_d(ck, w, prop, floors):
                       f'{fx}: input `{pn_}` (parameter {r["param"]}) reached {r["sites"]} call site(s) of {r["reaches"]} on the reference tree and reaches {have} now: a '
                       f'constraint that consumed this input was dropped or re-routed to another value', hirq.fn_loc(f))
     ck.count(f'{P}.D8 triples', len(rows8))
+    # field-sensitive variant: which FIELD of a structured operand a check is given
+    rows8f = [r for r in load_rules('argflow_fields.json') if r['property'] == prop]
+    byfn = {}
+    for r in rows8f:
+        byfn.setdefault(r['fn'], []).append(r)
+    for fx, rs in sorted(byfn.items()):
+        f = w.fn_x(fx, required=False)
+        if f is None:
+            continue            # reported by the parameter-level table above
+        cur = arg_flows_fields(f)
+        for r in rs:
+            have = cur.get((r['param'], r['reaches']), 0)
+            tok, fld = r['param'].split('.', 1)
+            pn_ = f'{valflow.param_name(f, tok)}.{fld}'
+            ck.record(f'{P}.D8', f'{fx}|{r["param"]}|{short(r["reaches"])}', have >= r['sites'], f'`{pn_}` reaches {short(r["reaches"])} at {have} site(s)',
+                      f'{fx}: the field `{pn_}` of a structured operand reached {r["sites"]} call site(s) of {r["reaches"]} on the reference tree and reaches {have} now: a '
+                      f'constraint that consumed this coordinate / flag / limb vector was dropped or re-routed to a sibling field', hirq.fn_loc(f))
+    ck.count(f'{P}.D8 field triples', len(rows8f))
     # ------------------------------------------------------------------ D9
     ck.rule(f'{P}.D9', 'loop-carried state is refreshed on every branch: for each (function, place) of rules/symupdate.json — places that EVERY arm of an if/else '
                        'inside a loop assigns on the reference tree — every arm still assigns it.  When one arm stops refreshing a loop-carried flag, the next '
@@ -668,6 +773,40 @@ def run_d(ck, w, prop, floors):
                   f'{r["fn"]}: selector `{r["selector"]}` was enabled at {r["sites"]} site(s) on the reference tree and is enabled at {have} now: the gate it switches on '
                   f'no longer constrains the cells assigned in that region', hirq.fn_loc(f))
     ck.count(f'{P}.D13 selector places', len(rows13))
+    # ------------------------------------------------------------------ D15
+    ck.rule(f'{P}.D15', 'gate inventory: for every gate / lookup declared with ConstraintSystem::create_gate / lookup / lookup_any (rules/gates.json), the closure that '
+                        'builds its polynomials keeps at least the operations of the reference tree — every query, every multiplication / addition / subtraction '
+                        'on expressions, every Rotation, every helper call — and its constraint list keeps its number of elements.  A gate that loses a term, a '
+                        'factor or a whole constraint still accepts every honest witness (all tests pass) and accepts forged ones as well.  Gates are matched by '
+                        'their name, then by their position; added gates and added terms never fire.')
+    rows15 = [r for r in load_rules('gates.json') if r['property'] == prop]
+    by15 = {}
+    for r in rows15:
+        by15.setdefault(r['fn'], []).append(r)
+    for fx, rs in sorted(by15.items()):
+        f = w.fn_x(fx, required=False)
+        if f is None:
+            ck.bad(f'{P}.D15', f'{fx}:anchor', f'function {fx} of the gate table not found (needs triage)')
+            continue
+        cur = gate_profiles(f)
+        used = set()
+        for r in rs:
+            m = next((i for i, (lab, name, prof) in enumerate(cur) if i not in used and name is not None and name == r.get('name')), None)
+            if m is None:
+                m = next((i for i, (lab, name, prof) in enumerate(cur) if i not in used and lab == r['gate']), None)
+            if m is None:
+                m = next((i for i, (lab, name, prof) in enumerate(cur) if i not in used and lab.split('#')[0] == r['gate'].split('#')[0]), None)
+            gname = (r.get('name') or r['gate'])[2:] if r.get('name') else r['gate']
+            if m is None:
+                ck.bad(f'{P}.D15', f'{fx}|{r["gate"]}', f'{fx}: the gate / lookup "{gname}" of the reference tree is no longer declared: its constraints are not enforced', hirq.fn_loc(f))
+                continue
+            used.add(m)
+            prof = cur[m][2]
+            lost = sorted((op, n_, prof.get(op, 0)) for op, n_ in r['ops'].items() if prof.get(op, 0) < n_)
+            ck.record(f'{P}.D15', f'{fx}|{r["gate"]}', not lost, f'gate "{gname}" keeps its {sum(r["ops"].values())} operations',
+                      f'{fx}: gate "{gname}" lost operations (operation, reference sites, sites now): {[(short(o), a, b) for o, a, b in lost[:5]]}: a term, a factor, a query or a '
+                      f'whole constraint of the gate was dropped — honest witnesses still satisfy it, forged ones may as well', hirq.fn_loc(f))
+    ck.count(f'{P}.D15 gates', len(rows15))
     # ------------------------------------------------------------------ D12
     ck.rule(f'{P}.D12', 'dead index tests: inside `for (i, _) in array.chunks(R).enumerate()` (array of N elements) or `for i in 0..K`, a branch guarded by '
                         '`i == N / R` / `i == K` can never be taken: the special handling of the LAST element it was meant to select (e.g. zeroing the filler '
